@@ -53,8 +53,11 @@ func errClass(err error) string {
 	return string(out)
 }
 
+// compressible: any frame but STARTUP may carry the COMPRESSED flag once compression is agreed (v4 §5: "a
+// STARTUP message must never be compressed"); OPTIONS and READY have empty bodies, and the library's own server
+// does compress READY.
 func compressible(op byte) bool {
-	return op != ref.OpStartup && op != ref.OpOptions && op != ref.OpReady
+	return op != ref.OpStartup
 }
 
 func run(c *mon.Ctx) {
